@@ -13,10 +13,13 @@ ORACLE = {
     "C01": ["refusal", "rt", "trail", "reload", "counts", "propsback"],
     "C02": ["rt", "trail", "wf"],
     "C04": ["refusal", "status", "rt", "trail", "reload", "counts", "offsets", "offpad", "propsback"],
-    "C05": ["offsets", "offpad", "pos", "trail", "propsback"],
+    "C05": ["offsets", "offpad", "pos", "trail", "propsback", "ef", "dcf", "exits"],
     "C06": ["depth", "chunkrefs", "wf"],
+    "C20": ["refusal", "status", "rt", "trail", "reload", "counts", "offsets", "offpad", "propsback", "wf",
+            "ef", "dcf", "exits"],
 }
 CORR = {
+    "C20": ["reenc", "props"],
     "C01": ["reenc", "props"],
     "C02": ["reenc"],
     "C04": ["reenc", "props"],
@@ -43,7 +46,7 @@ def evaluate(cid, case, impl, res):
         # an error return: acceptable only as a refusal of an unrepresentable configuration
         # (the model decides which those are), which must not leave a loadable file set behind
         refused = True
-        if "refusal" in ORACLE[cid] or cid in ("C01", "C04"):
+        if "refusal" in ORACLE[cid]:
             if case.get("props", "") != "":
                 of.append("status(%s but properties written)" % status[:40])
             if status.startswith("panic"):
@@ -84,7 +87,7 @@ def nontrivial_key(case):
 
 
 def run_art(cid, ctx, runs):
-    """runs: list of (mode, count, maxn, seed_offset, extra harness args)."""
+    """runs: list of (mode, count, maxn, seed_offset, extra harness args[, channel])."""
     tier, seed = ctx["tier"], ctx["seed"]
     os.makedirs(vlib.RUNS, exist_ok=True)
     evaluations, keys = 0, set()
@@ -92,9 +95,11 @@ def run_art(cid, ctx, runs):
     samples = []
     oracle_fail, corr_fail = [], []
     refused = 0
-    for (mode, count, maxn, so, extra) in runs:
-        path = os.path.join(vlib.RUNS, "%s_%s_%s.cases" % (cid, mode, tier))
-        vlib.run_harness(["art", "--seed", str(seed + so), "--count", str(count), "--maxn", str(maxn),
+    for run in runs:
+        (mode, count, maxn, so, extra) = run[:5]
+        chan = run[5] if len(run) > 5 else "art"
+        path = os.path.join(vlib.RUNS, "%s_%s_%s_%s.cases" % (cid, chan, mode, tier))
+        vlib.run_harness([chan, "--seed", str(seed + so), "--count", str(count), "--maxn", str(maxn),
                           "--mode", mode] + extra, path)
         order, cases, impl = vlib.read_cases(path)
         results, _ = vlib.run_driver(path)
@@ -103,10 +108,20 @@ def run_art(cid, ctx, runs):
             case = cases[cidx]
             res = rmap.get(cidx, {"error": "no-driver-output"})
             evaluations += 1
+            if case["_chan"] != "art":
+                # auxiliary steps (exit statuses, listings): every aspect is an oracle aspect
+                dist["step=" + cidx.split("-")[-1]] += 1
+                keys.add(case["_line"].split(" ", 2)[-1])
+                of = ["%s:%s" % (a, v) for a, v in res.items()
+                      if not a.startswith("_") and a != "id" and v != "ok"]
+                if of:
+                    oracle_fail.append((cidx, case, of, path))
+                continue
             k = nontrivial_key(case)
             if k is not None:
                 keys.add(k)
             dist["mode=" + mode] += 1
+            dist["path=" + case.get("path", "?").split("_order_")[0]] += 1
             dist["comp=" + case.get("comp", "?")] += 1
             dist["w=" + case.get("w", "?")] += 1
             dist["mr=" + case.get("mr", "?")] += 1
